@@ -48,16 +48,18 @@ aws_array_list_comparator_fn *g_qs_cmp;
 size_t g_mm;        /* memmove: offset (inside the moved range) of the witness byte */
 
 /* ---- libc memmove: ASSUMED contract (C standard: the n bytes at src are copied to dest as if through a temporary
- * buffer, nothing else is written, dest is returned), stated for ONE arbitrary byte g_mm of the moved range.
+ * buffer, nothing else is written, dest is returned), stated for ONE arbitrary byte g_mm of the moved range + frame.
  * Needed because CBMC 6.11's built-in memmove model does not terminate (array post-processing) when source and
  * destination lie in the same object of symbolic size at symbolic offsets - exactly the array list's use.
- * n > 0 holds at all three call sites (push_front, pop_front_n, erase) and is an obligation there. */
-#define AL_MM_IDX(n) (g_mm * (size_t)(g_mm < (n)))
+ * The callers' contracts tie g_mm to their own witness g_k by a ghost-only requires.
+ * n > 0 and validity of both ranges are obligations at the three call sites (push_front, pop_front_n, erase).
+ * memcpy and memset stay CBMC's built-in models. */
+#define AL_CLAMP(x, n) ((x) & (size_t)(-(size_t)((x) < (n)))) /* x if x < n else 0; branch-free so that old() accepts it */
 void *memmove(void *dest, const void *src, size_t n)
 __CPROVER_requires(n > 0 && __CPROVER_r_ok(src, n) && __CPROVER_w_ok(dest, n))
 __CPROVER_assigns(__CPROVER_object_upto(dest, n))
 __CPROVER_ensures(__CPROVER_pointer_equals(__CPROVER_return_value, dest))
-__CPROVER_ensures(g_on ==> ((const uint8_t *)dest)[AL_MM_IDX(n)] == __CPROVER_old(((const uint8_t *)src)[AL_MM_IDX(n)]))
+__CPROVER_ensures(g_on ==> ((const uint8_t *)dest)[AL_CLAMP(g_mm, n)] == __CPROVER_old(((const uint8_t *)src)[AL_CLAMP(g_mm, n)]))
 ;
 
 /* DFCC starts every harness with NONDET globals: reset all ghost switches, then switch on what the harness needs */
@@ -70,17 +72,27 @@ __CPROVER_assigns()
 __CPROVER_ensures(RET == g_last_error)
 ;
 
-/* ---- validity (DESIGN §4.1) ---- */
-/* length <= current_size / ISZ, written without a division (cheaper in SAT) */
-#define AL_LEN_FITS(len, cur) ((len) <= SIZE_MAX / ISZ && (len) * ISZ <= (cur))
+/* ---- validity (DESIGN §4.1) ----
+ * "the elements fit the storage" has two equivalent forms (unit inv_forms: P <=> Q for every length/size):
+ *   P (product)  : length <= SIZE_MAX/ISZ && length*ISZ <= current_size   - what the code's byte arithmetic needs
+ *   Q (quotient) : length <= current_size / ISZ                            - cheap to re-establish when only length moves
+ * Preconditions state both (equivalent, nothing is restricted); each post-state invariant states the form that the
+ * operation re-establishes without bit-level multiplication reasoning (SAT cannot do monotonicity of x*ISZ fast).
+ * AL_REQ_OK is written as SEPARATE requires clauses on purpose: `item_size == ISZ` as a clause of its own lets CBMC's
+ * symbolic execution propagate the constant into the code's `item_size * index` products. */
 #define AL_BYTES(l) ((uint8_t *)(l)->data)
-#define AL_FIELDS_OK(l)                                                                                                \
-    ((l)->item_size == ISZ && AL_LEN_FITS((l)->length, (l)->current_size) &&                                             \
-     ((l)->current_size == 0 ? (l)->data == NULL : __CPROVER_is_fresh((l)->data, (l)->current_size)))
-#define AL_OK(l) (__CPROVER_is_fresh((l), sizeof(*(l))) && AL_FIELDS_OK(l))
+#define AL_FITS_P(len, cur) ((len) <= SIZE_MAX / ISZ && (len) * ISZ <= (cur))
+#define AL_FITS_Q(len, cur) ((len) <= (cur) / ISZ)
+#define AL_STORAGE_OK(l) ((l)->current_size == 0 ? (l)->data == NULL : __CPROVER_is_fresh((l)->data, (l)->current_size))
+#define AL_REQ_OK(l)                                                                                                   \
+    __CPROVER_requires(__CPROVER_is_fresh((l), sizeof(*(l))))                                                          \
+    __CPROVER_requires((l)->item_size == ISZ)                                                                          \
+    __CPROVER_requires(AL_FITS_P((l)->length, (l)->current_size) && AL_FITS_Q((l)->length, (l)->current_size))        \
+    __CPROVER_requires(AL_STORAGE_OK(l))
 /* post-state representation invariant (storage validity is given by the frame / by is_fresh where it is replaced) */
-#define AL_INV(l)                                                                                                      \
-    ((l)->item_size == ISZ && AL_LEN_FITS((l)->length, (l)->current_size) && (((l)->current_size == 0) == ((l)->data == NULL)))
+#define AL_INV_COMMON(l) ((l)->item_size == ISZ && (((l)->current_size == 0) == ((l)->data == NULL)))
+#define AL_INV_P(l) (AL_INV_COMMON(l) && AL_FITS_P((l)->length, (l)->current_size))
+#define AL_INV_Q(l) (AL_INV_COMMON(l) && AL_FITS_Q((l)->length, (l)->current_size))
 #define AL_REQ_WITNESS(l)                                                                                              \
     __CPROVER_requires(g_on ==> (g_k < (l)->current_size ==> g_old == AL_BYTES(l)[g_k]))
 #define AL_ERR_FRAME(failcond) __CPROVER_assigns(failcond : g_last_error, g_raise_count)
@@ -113,19 +125,19 @@ __CPROVER_ensures(RET == g_last_error)
 /* ------------------------------------------------------------------ observers */
 
 AWS_STATIC_IMPL size_t aws_array_list_length(const struct aws_array_list *AWS_RESTRICT list)
-__CPROVER_requires(AL_OK(list))
+AL_REQ_OK(list)
 __CPROVER_assigns()
 __CPROVER_ensures(RET == list->length)
 ;
 
 AWS_STATIC_IMPL size_t aws_array_list_capacity(const struct aws_array_list *AWS_RESTRICT list)
-__CPROVER_requires(AL_OK(list))
+AL_REQ_OK(list)
 __CPROVER_assigns()
 __CPROVER_ensures(RET == list->current_size / ISZ && RET >= list->length)
 ;
 
 AWS_STATIC_IMPL int aws_array_list_get_at(const struct aws_array_list *AWS_RESTRICT list, void *val, size_t index)
-__CPROVER_requires(AL_OK(list))
+AL_REQ_OK(list)
 __CPROVER_requires(__CPROVER_is_fresh(val, ISZ))
 __CPROVER_assigns(index < list->length : __CPROVER_object_upto(val, ISZ))
 AL_ERR_FRAME(index >= list->length)
@@ -136,7 +148,7 @@ __CPROVER_ensures(g_on && RET == AWS_OP_SUCCESS && g_j < ISZ ==> ((uint8_t *)val
 ;
 
 AWS_STATIC_IMPL int aws_array_list_get_at_ptr(const struct aws_array_list *AWS_RESTRICT list, void **val, size_t index)
-__CPROVER_requires(AL_OK(list))
+AL_REQ_OK(list)
 __CPROVER_requires(__CPROVER_is_fresh(val, sizeof(*val)))
 __CPROVER_assigns(index < list->length : *val)
 AL_ERR_FRAME(index >= list->length)
@@ -147,7 +159,7 @@ __CPROVER_ensures(RET == AWS_OP_SUCCESS ==> PEQ(*val, AL_BYTES(list) + index * I
 ;
 
 AWS_STATIC_IMPL int aws_array_list_front(const struct aws_array_list *AWS_RESTRICT list, void *val)
-__CPROVER_requires(AL_OK(list))
+AL_REQ_OK(list)
 __CPROVER_requires(__CPROVER_is_fresh(val, ISZ))
 __CPROVER_assigns(list->length > 0 : __CPROVER_object_upto(val, ISZ))
 AL_ERR_FRAME(list->length == 0)
@@ -158,7 +170,7 @@ __CPROVER_ensures(g_on && RET == AWS_OP_SUCCESS && g_j < ISZ ==> ((uint8_t *)val
 ;
 
 AWS_STATIC_IMPL int aws_array_list_back(const struct aws_array_list *AWS_RESTRICT list, void *val)
-__CPROVER_requires(AL_OK(list))
+AL_REQ_OK(list)
 __CPROVER_requires(__CPROVER_is_fresh(val, ISZ))
 __CPROVER_assigns(list->length > 0 : __CPROVER_object_upto(val, ISZ))
 AL_ERR_FRAME(list->length == 0)
@@ -171,7 +183,7 @@ __CPROVER_ensures(g_on && RET == AWS_OP_SUCCESS && g_j < ISZ ==> ((uint8_t *)val
 /* ------------------------------------------------------------------ capacity */
 
 int aws_array_list_calc_necessary_size(struct aws_array_list *AWS_RESTRICT list, size_t index, size_t *necessary_size)
-__CPROVER_requires(AL_OK(list))
+AL_REQ_OK(list)
 __CPROVER_requires(__CPROVER_is_fresh(necessary_size, sizeof(*necessary_size)))
 __CPROVER_assigns(*necessary_size)
 AL_ERR_FRAME(!AL_NEED_OK(index))
@@ -184,7 +196,7 @@ __CPROVER_ensures(RET != AWS_OP_SUCCESS ==> g_last_error == AWS_ERROR_OVERFLOW_D
 /* success <=> the index fits arithmetically and (it fits the storage already, or the list is dynamic).
  * static mode (alloc == NULL) refuses to grow with AWS_ERROR_INVALID_INDEX and writes nothing. */
 int aws_array_list_ensure_capacity(struct aws_array_list *AWS_RESTRICT list, size_t index)
-__CPROVER_requires(AL_OK(list))
+AL_REQ_OK(list)
 AL_REQ_WITNESS(list)
 __CPROVER_assigns(AL_GROWS(list, index) : list->data, list->current_size)
 __CPROVER_frees(AL_GROWS(list, index) : list->data)
@@ -194,7 +206,7 @@ __CPROVER_ensures((RET == AWS_OP_SUCCESS) == AL_OLD_ENSURE_OK(list, index))
 AL_ENS_STORAGE(list, index)
 AL_ENS_ERRCODE(list, index)
 __CPROVER_ensures(AL_NEED_OK(index) && RET != AWS_OP_SUCCESS ==> g_last_error == AWS_ERROR_INVALID_INDEX)
-__CPROVER_ensures(list->length == OLD(list->length) && AL_INV(list))
+__CPROVER_ensures(list->length == OLD(list->length) && AL_INV_P(list))
 __CPROVER_ensures(g_on && g_k < OLD(list->current_size) ==> AL_BYTES(list)[g_k] == g_old)
 ;
 
@@ -203,7 +215,7 @@ __CPROVER_ensures(g_on && g_k < OLD(list->current_size) ==> AL_BYTES(list)[g_k] 
 #define AL_IN_ELEM(k, i) ((k) >= (i) * ISZ && (k) < (i) * ISZ + ISZ)
 
 AWS_STATIC_IMPL int aws_array_list_set_at(struct aws_array_list *AWS_RESTRICT list, const void *val, size_t index)
-__CPROVER_requires(AL_OK(list))
+AL_REQ_OK(list)
 __CPROVER_requires(__CPROVER_is_fresh(val, ISZ))
 AL_REQ_WITNESS(list)
 __CPROVER_assigns(AL_ENSURE_OK(list, index) && index >= list->length : list->length)
@@ -219,13 +231,13 @@ __CPROVER_ensures(AL_NEED_OK(index) && RET != AWS_OP_SUCCESS ==> g_last_error ==
 /* gap growth: the length becomes index+1 when index is at or beyond the old length */
 __CPROVER_ensures(RET == AWS_OP_SUCCESS ==> list->length == (index >= OLD(list->length) ? index + 1 : OLD(list->length)))
 __CPROVER_ensures(RET != AWS_OP_SUCCESS ==> list->length == OLD(list->length))
-__CPROVER_ensures(AL_INV(list))
+__CPROVER_ensures(AL_INV_P(list))
 __CPROVER_ensures(g_on && RET == AWS_OP_SUCCESS && g_j < ISZ ==> AL_BYTES(list)[index * ISZ + g_j] == ((const uint8_t *)val)[g_j])
 __CPROVER_ensures(g_on && g_k < OLD(list->current_size) && !(RET == AWS_OP_SUCCESS && AL_IN_ELEM(g_k, index)) ==> AL_BYTES(list)[g_k] == g_old)
 ;
 
 AWS_STATIC_IMPL int aws_array_list_push_back(struct aws_array_list *AWS_RESTRICT list, const void *val)
-__CPROVER_requires(AL_OK(list))
+AL_REQ_OK(list)
 __CPROVER_requires(__CPROVER_is_fresh(val, ISZ))
 AL_REQ_WITNESS(list)
 __CPROVER_assigns(AL_ENSURE_OK(list, list->length) : list->length)
@@ -240,13 +252,13 @@ AL_ENS_ERRCODE(list, OLD(list->length))
 /* a full list over caller-provided storage refuses with the documented error */
 __CPROVER_ensures(AL_NEED_OK(OLD(list->length)) && RET != AWS_OP_SUCCESS ==> g_last_error == AWS_ERROR_LIST_EXCEEDS_MAX_SIZE)
 __CPROVER_ensures(list->length == OLD(list->length) + (RET == AWS_OP_SUCCESS ? 1 : 0))
-__CPROVER_ensures(AL_INV(list))
+__CPROVER_ensures(AL_INV_P(list))
 __CPROVER_ensures(g_on && RET == AWS_OP_SUCCESS && g_j < ISZ ==> AL_BYTES(list)[OLD(list->length) * ISZ + g_j] == ((const uint8_t *)val)[g_j])
 __CPROVER_ensures(g_on && g_k < OLD(list->current_size) && !(RET == AWS_OP_SUCCESS && AL_IN_ELEM(g_k, OLD(list->length))) ==> AL_BYTES(list)[g_k] == g_old)
 ;
 
 AWS_STATIC_IMPL int aws_array_list_push_front(struct aws_array_list *AWS_RESTRICT list, const void *val)
-__CPROVER_requires(AL_OK(list))
+AL_REQ_OK(list)
 __CPROVER_requires(__CPROVER_is_fresh(val, ISZ))
 AL_REQ_WITNESS(list)
 __CPROVER_requires(g_on ==> g_mm == g_k) /* ghost only: the memmove witness is the byte that holds old byte g_k */
@@ -261,7 +273,7 @@ AL_ENS_STORAGE(list, OLD(list->length))
 AL_ENS_ERRCODE(list, OLD(list->length))
 __CPROVER_ensures(AL_NEED_OK(OLD(list->length)) && RET != AWS_OP_SUCCESS ==> g_last_error == AWS_ERROR_LIST_EXCEEDS_MAX_SIZE)
 __CPROVER_ensures(list->length == OLD(list->length) + (RET == AWS_OP_SUCCESS ? 1 : 0))
-__CPROVER_ensures(AL_INV(list))
+__CPROVER_ensures(AL_INV_P(list))
 /* new first element is val, every old element moved up by one slot */
 __CPROVER_ensures(g_on && RET == AWS_OP_SUCCESS && g_j < ISZ ==> AL_BYTES(list)[g_j] == ((const uint8_t *)val)[g_j])
 __CPROVER_ensures(g_on && RET == AWS_OP_SUCCESS && g_k < OLD(list->length) * ISZ ==> AL_BYTES(list)[g_k + ISZ] == g_old)
@@ -271,37 +283,37 @@ __CPROVER_ensures(g_on && RET != AWS_OP_SUCCESS && g_k < OLD(list->current_size)
 /* ------------------------------------------------------------------ pop / erase / clear */
 
 AWS_STATIC_IMPL int aws_array_list_pop_back(struct aws_array_list *AWS_RESTRICT list)
-__CPROVER_requires(AL_OK(list))
+AL_REQ_OK(list)
 __CPROVER_assigns(list->length > 0 : list->length, __CPROVER_object_upto(AL_BYTES(list) + (list->length - 1) * ISZ, ISZ))
 AL_ERR_FRAME(list->length == 0)
 __CPROVER_ensures(RET == AWS_OP_SUCCESS || RET == AWS_OP_ERR)
 __CPROVER_ensures((RET == AWS_OP_SUCCESS) == (OLD(list->length) > 0))
 __CPROVER_ensures(RET != AWS_OP_SUCCESS ==> g_last_error == AWS_ERROR_LIST_EMPTY)
 __CPROVER_ensures(list->length == OLD(list->length) - (RET == AWS_OP_SUCCESS ? 1 : 0))
-__CPROVER_ensures(AL_INV(list))
+__CPROVER_ensures(AL_INV_Q(list))
 ;
 
 AWS_STATIC_IMPL void aws_array_list_clear(struct aws_array_list *AWS_RESTRICT list)
-__CPROVER_requires(AL_OK(list))
+AL_REQ_OK(list)
 __CPROVER_assigns(list->data != NULL : list->length)
-__CPROVER_ensures(list->length == 0 && AL_INV(list))
+__CPROVER_ensures(list->length == 0 && AL_INV_P(list) && AL_INV_Q(list))
 ;
 
 #define AL_POPN_MOVES(l, n) ((n) > 0 && (n) < (l)->length)
 AWS_STATIC_IMPL void aws_array_list_pop_front_n(struct aws_array_list *AWS_RESTRICT list, size_t n)
-__CPROVER_requires(AL_OK(list))
+AL_REQ_OK(list)
 AL_REQ_WITNESS(list)
 __CPROVER_requires(g_on ==> g_mm == g_k - n * ISZ) /* ghost only */
 __CPROVER_assigns((n >= list->length && list->data != NULL) || AL_POPN_MOVES(list, n) : list->length)
 __CPROVER_assigns(AL_POPN_MOVES(list, n) : __CPROVER_object_upto(AL_BYTES(list), (list->length - n) * ISZ))
 __CPROVER_ensures(list->length == (n >= OLD(list->length) ? 0 : OLD(list->length) - n))
-__CPROVER_ensures(AL_INV(list))
+__CPROVER_ensures(AL_INV_Q(list))
 /* old element i >= n is now element i-n */
 __CPROVER_ensures(g_on && n < OLD(list->length) && g_k >= n * ISZ && g_k < OLD(list->length) * ISZ ==> AL_BYTES(list)[g_k - n * ISZ] == g_old)
 ;
 
 AWS_STATIC_IMPL int aws_array_list_pop_front(struct aws_array_list *AWS_RESTRICT list)
-__CPROVER_requires(AL_OK(list))
+AL_REQ_OK(list)
 AL_REQ_WITNESS(list)
 __CPROVER_requires(g_on ==> g_mm == g_k - ISZ) /* ghost only */
 __CPROVER_assigns(list->length > 0 : list->length)
@@ -311,13 +323,13 @@ __CPROVER_ensures(RET == AWS_OP_SUCCESS || RET == AWS_OP_ERR)
 __CPROVER_ensures((RET == AWS_OP_SUCCESS) == (OLD(list->length) > 0))
 __CPROVER_ensures(RET != AWS_OP_SUCCESS ==> g_last_error == AWS_ERROR_LIST_EMPTY)
 __CPROVER_ensures(list->length == OLD(list->length) - (RET == AWS_OP_SUCCESS ? 1 : 0))
-__CPROVER_ensures(AL_INV(list))
+__CPROVER_ensures(AL_INV_Q(list))
 __CPROVER_ensures(g_on && g_k >= ISZ && g_k < OLD(list->length) * ISZ ==> AL_BYTES(list)[g_k - ISZ] == g_old)
 ;
 
 /* erase(k): elements < k untouched (frame), old element i > k is now element i-1, length-1 */
 AWS_STATIC_IMPL int aws_array_list_erase(struct aws_array_list *AWS_RESTRICT list, size_t index)
-__CPROVER_requires(AL_OK(list))
+AL_REQ_OK(list)
 AL_REQ_WITNESS(list)
 __CPROVER_requires(g_on ==> g_mm == g_k - (index + 1) * ISZ) /* ghost only */
 __CPROVER_assigns(index < list->length : list->length, __CPROVER_object_upto(AL_BYTES(list) + index * ISZ, (list->length - index) * ISZ))
@@ -326,7 +338,7 @@ __CPROVER_ensures(RET == AWS_OP_SUCCESS || RET == AWS_OP_ERR)
 __CPROVER_ensures((RET == AWS_OP_SUCCESS) == (index < OLD(list->length)))
 __CPROVER_ensures(RET != AWS_OP_SUCCESS ==> g_last_error == AWS_ERROR_INVALID_INDEX)
 __CPROVER_ensures(list->length == OLD(list->length) - (RET == AWS_OP_SUCCESS ? 1 : 0))
-__CPROVER_ensures(AL_INV(list))
+__CPROVER_ensures(AL_INV_Q(list))
 __CPROVER_ensures(g_on && RET == AWS_OP_SUCCESS && g_k >= (index + 1) * ISZ && g_k < OLD(list->length) * ISZ ==> AL_BYTES(list)[g_k - ISZ] == g_old)
 ;
 
@@ -347,7 +359,7 @@ __CPROVER_ensures(g_on && g_j < item_size ==> ((uint8_t *)item1)[g_j] == g_vb &&
 ;
 
 void aws_array_list_swap(struct aws_array_list *AWS_RESTRICT list, size_t a, size_t b)
-__CPROVER_requires(AL_OK(list))
+AL_REQ_OK(list)
 __CPROVER_requires(a < list->length && b < list->length)
 __CPROVER_requires(g_on ==> (g_j < ISZ ==> g_va == AL_BYTES(list)[a * ISZ + g_j] && g_vb == AL_BYTES(list)[b * ISZ + g_j]))
 __CPROVER_assigns(a != b : __CPROVER_object_upto(AL_BYTES(list) + a * ISZ, ISZ), __CPROVER_object_upto(AL_BYTES(list) + b * ISZ, ISZ))
@@ -359,8 +371,9 @@ __CPROVER_ensures(g_on && g_j < ISZ ==> AL_BYTES(list)[a * ISZ + g_j] == g_vb &&
 #define AL_COPY_FITS(from, to) ((to)->current_size >= (from)->length * ISZ)
 #define AL_COPY_GROWS(from, to) ((to)->current_size < (from)->length * ISZ && (to)->alloc != NULL)
 int aws_array_list_copy(const struct aws_array_list *AWS_RESTRICT from, struct aws_array_list *AWS_RESTRICT to)
-__CPROVER_requires(AL_OK(from) && from->data != NULL)
-__CPROVER_requires(AL_OK(to))
+AL_REQ_OK(from)
+__CPROVER_requires(from->data != NULL)
+AL_REQ_OK(to)
 __CPROVER_requires(g_on ==> (g_k < to->current_size ==> g_old == AL_BYTES(to)[g_k]))
 __CPROVER_assigns(AL_COPY_FITS(from, to) || AL_COPY_GROWS(from, to) : to->length)
 __CPROVER_assigns(AL_COPY_FITS(from, to) && from->length > 0 : __CPROVER_object_upto(AL_BYTES(to), from->length * ISZ))
@@ -375,14 +388,14 @@ __CPROVER_ensures(OLD(to->current_size) < from->length * ISZ && OLD(to->alloc) !
                   to->current_size == from->length * ISZ && __CPROVER_is_fresh(to->data, to->current_size))
 __CPROVER_ensures(!(OLD(to->current_size) < from->length * ISZ && OLD(to->alloc) != NULL) ==>
                   to->current_size == OLD(to->current_size) && PEQ(to->data, OLD(to->data)))
-__CPROVER_ensures(to->alloc == OLD(to->alloc) && AL_INV(to))
+__CPROVER_ensures(to->alloc == OLD(to->alloc) && AL_INV_P(to))
 __CPROVER_ensures(g_on && RET == AWS_OP_SUCCESS && g_j < from->length * ISZ ==> AL_BYTES(to)[g_j] == AL_BYTES(from)[g_j])
 __CPROVER_ensures(g_on && RET != AWS_OP_SUCCESS && g_k < OLD(to->current_size) ==> AL_BYTES(to)[g_k] == g_old)
 ;
 
 #define AL_SHRINKS(l) ((l)->alloc != NULL && (l)->length * ISZ < (l)->current_size)
 int aws_array_list_shrink_to_fit(struct aws_array_list *AWS_RESTRICT list)
-__CPROVER_requires(AL_OK(list))
+AL_REQ_OK(list)
 AL_REQ_WITNESS(list)
 __CPROVER_assigns(AL_SHRINKS(list) : list->data, list->current_size)
 __CPROVER_frees(AL_SHRINKS(list) && list->length > 0 : list->data)
@@ -394,21 +407,22 @@ __CPROVER_ensures(RET == AWS_OP_SUCCESS ==> list->current_size == list->length *
 __CPROVER_ensures(RET != AWS_OP_SUCCESS ==> list->current_size == OLD(list->current_size) && PEQ(list->data, OLD(list->data)))
 __CPROVER_ensures(RET == AWS_OP_SUCCESS && list->current_size < OLD(list->current_size) && list->current_size > 0 ==>
                   __CPROVER_is_fresh(list->data, list->current_size))
-__CPROVER_ensures(list->length == OLD(list->length) && list->alloc == OLD(list->alloc) && AL_INV(list))
+__CPROVER_ensures(list->length == OLD(list->length) && list->alloc == OLD(list->alloc) && AL_INV_P(list))
 __CPROVER_ensures(g_on && g_k < list->length * ISZ ==> AL_BYTES(list)[g_k] == g_old)
 ;
 
 AWS_STATIC_IMPL void aws_array_list_swap_contents(
     struct aws_array_list *AWS_RESTRICT list_a,
     struct aws_array_list *AWS_RESTRICT list_b)
-__CPROVER_requires(AL_OK(list_a) && AL_OK(list_b))
+AL_REQ_OK(list_a)
+AL_REQ_OK(list_b)
 __CPROVER_requires(list_a->alloc != NULL && list_a->alloc == list_b->alloc)
 __CPROVER_assigns(*list_a, *list_b)
 __CPROVER_ensures(list_a->length == OLD(list_b->length) && list_b->length == OLD(list_a->length))
 __CPROVER_ensures(list_a->current_size == OLD(list_b->current_size) && list_b->current_size == OLD(list_a->current_size))
 __CPROVER_ensures(PEQ(list_a->data, OLD(list_b->data)) && PEQ(list_b->data, OLD(list_a->data)))
 __CPROVER_ensures(list_a->alloc == OLD(list_b->alloc) && list_b->alloc == OLD(list_a->alloc))
-__CPROVER_ensures(AL_INV(list_a) && AL_INV(list_b))
+__CPROVER_ensures(AL_INV_P(list_a) && AL_INV_Q(list_a) && AL_INV_P(list_b) && AL_INV_Q(list_b))
 ;
 
 AWS_STATIC_IMPL int aws_array_list_init_dynamic(
@@ -456,7 +470,7 @@ __CPROVER_ensures(list->alloc == NULL && list->length == item_count && list->ite
 ;
 
 AWS_STATIC_IMPL void aws_array_list_clean_up(struct aws_array_list *AWS_RESTRICT list)
-__CPROVER_requires(AL_OK(list))
+AL_REQ_OK(list)
 __CPROVER_assigns(*list)
 __CPROVER_frees(list->alloc != NULL : list->data)
 __CPROVER_ensures(list->alloc == NULL && list->length == 0 && list->item_size == 0 && list->current_size == 0 && list->data == NULL)
@@ -472,7 +486,7 @@ __CPROVER_ensures(g_qs_base == base && g_qs_n == nmemb && g_qs_sz == size && g_q
 ;
 
 void aws_array_list_sort(struct aws_array_list *AWS_RESTRICT list, aws_array_list_comparator_fn *compare_fn)
-__CPROVER_requires(AL_OK(list))
+AL_REQ_OK(list)
 __CPROVER_assigns(list->data != NULL : g_qs_base, g_qs_n, g_qs_sz, g_qs_cmp, g_qs_calls)
 __CPROVER_assigns(list->data != NULL && list->length > 0 : __CPROVER_object_upto(AL_BYTES(list), list->length * ISZ))
 __CPROVER_ensures(list->data != NULL ==> g_qs_calls == OLD(g_qs_calls) + 1 && g_qs_base == list->data &&
